@@ -168,7 +168,16 @@ def run(ctx):
     # arbitrary lists: only MalformedHunkError may escape
     pool = hunks.GARBAGE + hunks.PAYLOADS + hunks.ILLEGAL + [
         b'@@ -1 +1 @@', b'@@ -1,2 +1,2 @@', b'@@ -0,0 +1 @@', b' a', b'-a',
-        b'+a', b'@@ -1,0 +1,0 @@', b'@@ -99999999999999999999 +1 @@']
+        b'+a', b'@@ -1,0 +1,0 @@', b'@@ -99999999999999999999 +1 @@',
+        # numbers beyond the interpreter's int<->str digit limit, in every
+        # position of the header
+        b'@@ -' + b'9' * 5000 + b' +1 @@',
+        b'@@ -1,' + b'8' * 4301 + b' +1 @@',
+        b'@@ -1 +' + b'7' * 6000 + b' @@',
+        b'@@ -1,2 +1,' + b'1' + b'0' * 4400 + b' @@ ctx',
+        b'## -1 +1 ##', b'## -1,2 +1,2 ##', b'@@@ -1 -1 +1 @@@',
+        b'\\ No newline at end of property',
+        b'\\ Kein Zeilenumbruch am Dateiende.', b'\\ ', b'\\']
     for ig in (False, True):
         res, exc = call([], ig)
         obs.case(('empty', ig), nontrivial=False)
